@@ -154,6 +154,51 @@ pub enum LogicalOperator {
     VectorJoin(VectorJoinOp),
 }
 
+impl LogicalOperator {
+    /// Returns true if `variable` is bound to an edge somewhere below this operator.
+    #[must_use]
+    pub fn binds_edge_variable(&self, variable: &str) -> bool {
+        match self {
+            Self::Expand(e) => {
+                e.edge_variable.as_deref() == Some(variable)
+                    || e.input.binds_edge_variable(variable)
+            }
+            Self::EdgeScan(s) => {
+                s.variable == variable
+                    || s.input
+                        .as_deref()
+                        .is_some_and(|i| i.binds_edge_variable(variable))
+            }
+            Self::CreateEdge(c) => {
+                c.variable.as_deref() == Some(variable) || c.input.binds_edge_variable(variable)
+            }
+            Self::NodeScan(s) => s
+                .input
+                .as_deref()
+                .is_some_and(|i| i.binds_edge_variable(variable)),
+            Self::CreateNode(c) => c
+                .input
+                .as_deref()
+                .is_some_and(|i| i.binds_edge_variable(variable)),
+            Self::Filter(f) => f.input.binds_edge_variable(variable),
+            Self::Limit(l) => l.input.binds_edge_variable(variable),
+            Self::Skip(s) => s.input.binds_edge_variable(variable),
+            Self::Sort(s) => s.input.binds_edge_variable(variable),
+            Self::Distinct(d) => d.input.binds_edge_variable(variable),
+            Self::SetProperty(s) => s.input.binds_edge_variable(variable),
+            Self::AddLabel(a) => a.input.binds_edge_variable(variable),
+            Self::RemoveLabel(r) => r.input.binds_edge_variable(variable),
+            Self::Join(j) => {
+                j.left.binds_edge_variable(variable) || j.right.binds_edge_variable(variable)
+            }
+            Self::LeftJoin(j) => {
+                j.left.binds_edge_variable(variable) || j.right.binds_edge_variable(variable)
+            }
+            _ => false,
+        }
+    }
+}
+
 /// Scan nodes from the graph.
 #[derive(Debug, Clone)]
 pub struct NodeScanOp {
